@@ -120,3 +120,28 @@ def ranges_of(values):
         else:
             out.append([v, v])
     return out
+
+
+def check_lookup(prog, res, rule, fn, table, key_idx, n_fields):
+    """`fn(x)` is a total table lookup: it returns Ok(row) for the row of const `table` whose
+    column `key_idx` equals the whole argument, Err otherwise (no partial comparison, no default)."""
+    tabs, an, sy = accept.accept_tables(prog, fn)
+    body = an.body
+    res.functions.add(fn)
+    elem = "(Iterator::next(mut(%s)) as Some).0" % table
+    want = frozenset(["%s.%d - arg1 == 0" % (elem, key_idx), "Iterator::next(mut(%s)) is Some" % table])
+    if len(tabs) != 1 or [p for p in tabs[0].paths] != [want]:
+        got = [sorted(p) for tb in tabs for p in tb.paths]
+        res.oblige(False)
+        res.violate(rule, fn, "lookup-guard", "`%s` is not `return the row of %s whose column %d equals the argument`: accept paths %s" % (fn, table, key_idx, got), body.where())
+        return False
+    oks = an.ok_sites()
+    st = strip(oks[0][1][2][0])
+    names = [sy.name(o) for o in st[2]] if st[0] == "aggr" else []
+    if names != ["%s.%d" % (elem, i) for i in range(n_fields)]:
+        res.oblige(False)
+        res.violate(rule, fn, "lookup-value", "`%s` does not return the matching row's fields in order: %s" % (fn, names), body.where(oks[0][0]))
+        return False
+    res.oblige(True, "table-lookup")
+    res.hit(rule)
+    return True
